@@ -1,0 +1,88 @@
+//go:build verif
+
+package compose
+
+import (
+	"sync/atomic"
+
+	"github.com/cloudwego/eino/internal/serialization"
+)
+
+// Verification hooks, compiled only with the build tag verif. They add trace
+// and yield points to the task hand-off protocol of taskManager and export a
+// few internals to the external verification harness. No behaviour changes.
+
+// Points of the task hand-off protocol reported to VerifTaskHook.
+const (
+	VerifSubmitAsync = iota // run loop: about to start `go executor(task)`
+	VerifSubmitSync         // run loop: about to run executor(task) inline
+	VerifBodyDone           // executor: node body returned (or panicked), before taking the mutex
+	VerifPushed             // executor: task appended to the overflow list (mutex held)
+	VerifHandoff            // updateChan: task sent into the 1-slot channel (mutex held)
+	VerifUnlocked           // executor: mutex released
+	VerifRecv               // collector: task received from the channel, before the re-fill
+	VerifCollected          // collector: re-fill done, mutex released
+)
+
+// VerifTaskEvent describes one hook event.
+type VerifTaskEvent struct {
+	Point   int
+	Manager uint64 // unique id of the task manager (one per run)
+	Task    uint64 // unique id of the task within the process
+	NodeKey string
+	NeedAll bool
+}
+
+var verifTaskHook atomic.Value // func(VerifTaskEvent)
+
+// SetVerifTaskHook installs (or, with nil, removes) the task hook.
+func SetVerifTaskHook(fn func(VerifTaskEvent)) {
+	if fn == nil {
+		fn = func(VerifTaskEvent) {}
+	}
+	verifTaskHook.Store(fn)
+}
+
+type verifTM struct {
+	id uint64
+}
+
+type verifTask struct {
+	verifID uint64
+}
+
+var verifTMCounter, verifTaskCounter uint64
+
+func verifPoint(p int, t *taskManager, ta *task) {
+	fn, _ := verifTaskHook.Load().(func(VerifTaskEvent))
+	if fn == nil {
+		return
+	}
+	if t.verifTM.id == 0 {
+		// first call for a manager is always made by the run-loop goroutine in submit
+		t.verifTM.id = atomic.AddUint64(&verifTMCounter, 1)
+	}
+	if ta.verifID == 0 {
+		ta.verifID = atomic.AddUint64(&verifTaskCounter, 1)
+	}
+	fn(VerifTaskEvent{Point: p, Manager: t.verifTM.id, Task: ta.verifID, NodeKey: ta.nodeKey, NeedAll: t.needAll})
+}
+
+// VerifSerialize / VerifDeserialize expose the checkpoint serializer.
+func VerifSerialize(v any) ([]byte, error) { return serialization.Marshal(v) }
+
+func VerifDeserialize(b []byte) (any, error) { return serialization.Unmarshal(b) }
+
+// VerifDAGChannel lets the harness drive a real all-predecessor channel.
+type VerifDAGChannel struct{ ch *dagChannel }
+
+func VerifNewDAGChannel(controlPredecessors, dataPredecessors []string) *VerifDAGChannel {
+	c := dagChannelBuilder(controlPredecessors, dataPredecessors, func() any { return map[string]any(nil) }, nil)
+	return &VerifDAGChannel{ch: c.(*dagChannel)}
+}
+
+func (v *VerifDAGChannel) ReportValues(m map[string]any) error { return v.ch.reportValues(m) }
+func (v *VerifDAGChannel) ReportDependencies(d []string)       { v.ch.reportDependencies(d) }
+func (v *VerifDAGChannel) ReportSkip(k []string) bool          { return v.ch.reportSkip(k) }
+func (v *VerifDAGChannel) Get() (any, bool, error)             { return v.ch.get(false) }
+func (v *VerifDAGChannel) Skipped() bool                       { return v.ch.Skipped }
